@@ -331,6 +331,27 @@ def run(chk, prog):
                            'the bytes written derive only from the compiler\'s Ok payload',
                            'the output file content does not derive only from Compiler::compile* (provenance %s)'
                            % sorted(a for a in at if a.startswith(('call:', 'arg:')))[:5], g.loc(bb))
+        # ... and replace the file: nothing of an earlier, longer output survives behind them
+        ltw = Tracer(prog, transparent=lambda cs: True, use_summaries=False)
+        for i, (g, bb, t) in enumerate(writes):
+            d = t['f'].get('def') or ''
+            if d == 'std::fs::write':
+                chk.ok(RC, chk.key(RC, 'file-replaced', '#%d' % i), 'std::fs::write creates or truncates the file', g.loc(bb))
+                continue
+            rp = ltw.prov(g, t['args'][0])
+            opened = [a for a in rp if a.split(':', 1)[-1] in ('OpenOptions::open', 'File::create', 'File::create_new',
+                                                               'File::options', 'File::open')]
+            whole = any(a.split(':', 1)[-1] in ('File::create', 'File::create_new', 'OpenOptions::truncate',
+                                                'OpenOptions::create_new') for a in rp)
+            appending = any(a.split(':', 1)[-1] == 'OpenOptions::append' for a in rp)
+            is_file = any('File' in (x or '') for x in [t['f'].get('self', '')] + (t['f'].get('targs') or [])) or bool(opened)
+            if not is_file:
+                continue        # a write to stdout / a buffer
+            chk.decide(RC, chk.key(RC, 'file-replaced', '#%d' % i), whole and not appending,
+                       'the file is created anew or truncated before it is written',
+                       'the output file is opened for writing without being truncated (no File::create, no '
+                       '.truncate(true)): when a longer file of that name exists, the tail of the old content stays '
+                       'behind the compiled story and the file is no longer the library\'s output', g.loc(bb))
         # the error text shown is the compiler error's Display
         shown = False
         for f in tool + mainf:
